@@ -243,6 +243,21 @@ class Check:
         # (2) the shared driver (all properties' ops): a failure here that is not caused by this property's modules is a
         #     problem of the machinery (exit 2), never a verdict about the property
         okd, logd = lake_build(["cdd_model"])
+        if okd:
+            # private copy: concurrent builds of other checks relink (and briefly remove) the shared binary
+            global DRIVER
+            import shutil
+
+            scratch = VERIF / ".scratch"
+            scratch.mkdir(exist_ok=True)
+            mine = scratch / ("cdd_model_%s_%d" % (self.prop, os.getpid()))
+            lock = _lock()
+            try:
+                shutil.copy2(LEAN / ".lake" / "build" / "bin" / "cdd_model", mine)
+            finally:
+                lock.close()
+            DRIVER = mine
+            self._driver_copy = mine
         if not okd:
             own = {str(p.relative_to(LEAN))[:-5].replace("/", ".") for p in lean_deps(module)}
             bad = set(failing_modules(logd))
@@ -367,6 +382,11 @@ class Check:
         }
         (VERIF / "evidence").mkdir(exist_ok=True)
         (VERIF / "evidence" / ("%s.json" % self.prop)).write_text(json.dumps(ev, indent=1, ensure_ascii=True, default=repr) + "\n")
+        try:
+            if getattr(self, "_driver_copy", None) is not None:
+                self._driver_copy.unlink()
+        except OSError:
+            pass
         for l in lines:
             print(l)
         print("%s %s tier=%s seed=%d: obligations %d/%d, evaluations %d (distinct non-trivial %d), broken %d, violations %d, known findings %d, %.1fs"
